@@ -6,6 +6,7 @@ import (
 	"fmt"
 	"strings"
 
+	"golang.org/x/perf/benchunit"
 	"golang.org/x/perf/cmd/benchstat/internal/benchtab"
 )
 
@@ -128,10 +129,20 @@ func colPosCheck(run *Run) string {
 		if last+len(tab.Rows) >= len(blk) {
 			return fmt.Sprintf("text:table%d-rows-missing", ti)
 		}
+		class := benchunit.ClassOf(tab.Unit)
 		for ri, row := range tab.Rows {
 			line := []rune(blk[last+1+ri])
+			// the row's common scale is that of ALL its centres (C10's clause, observed end to end:
+			// real benchunit.CommonScale/Format as the oracle for how a number prints)
+			var centres []float64
+			for _, col := range tab.Cols {
+				if cell, ok := tab.Cells[benchtab.TableKey{Row: row, Col: col}]; ok {
+					centres = append(centres, cell.Summary.Center)
+				}
+			}
+			scaler := benchunit.CommonScale(centres, class)
 			for exp, col := range tab.Cols {
-				_, ok := tab.Cells[benchtab.TableKey{Row: row, Col: col}]
+				cell, ok := tab.Cells[benchtab.TableKey{Row: row, Col: col}]
 				lo, hi := pos[exp]+1, pos[exp+1]
 				if exp == len(tab.Cols)-1 && hi < len(line) {
 					hi = len(line)
@@ -145,6 +156,11 @@ func colPosCheck(run *Run) string {
 				}
 				if ok != (seg != "") {
 					return fmt.Sprintf("text:table%d-row%d-col%d-present=%v-text=%q", ti, ri, exp, ok, seg)
+				}
+				if ok {
+					if want := scaler.Format(cell.Summary.Center); strings.Fields(seg)[0] != want {
+						return fmt.Sprintf("text:table%d-row%d-col%d-prints-%q-want-%q-(row-scale-of-all-centres)", ti, ri, exp, strings.Fields(seg)[0], want)
+					}
 				}
 			}
 		}
@@ -216,6 +232,56 @@ func hdrCfgCheck(run *Run, s *Stream) string {
 				}
 			}
 		}
+	}
+	return "ok"
+}
+
+// labelsCheck: the .file value of the results of every input is what the documentation of
+// benchfmt.Files promises for the argument list — label for label=path, path#N for an unlabelled
+// path given more than once (N counts its occurrences from 0), the path otherwise ("-" for
+// standard input). Computed here from the arguments alone; observed: the run-length compressed
+// sequence of .file values of the filtered results must be a subsequence of it.
+func labelsCheck(c *Case, run *Run) string {
+	count := map[string]int{}
+	for _, a := range c.Args {
+		if !strings.Contains(a, "=") {
+			count[a]++
+		}
+	}
+	seen := map[string]int{}
+	var want []string
+	for _, a := range c.Args {
+		switch {
+		case strings.Contains(a, "="):
+			want = append(want, a[:strings.Index(a, "=")])
+		case count[a] > 1:
+			want = append(want, fmt.Sprintf("%s#%d", a, seen[a]))
+			seen[a]++
+		default:
+			want = append(want, a)
+		}
+	}
+	var got []string
+	for _, r := range run.raws {
+		v := ""
+		for _, cfg := range r.config {
+			if cfg.Key == ".file" {
+				v = string(cfg.Value)
+			}
+		}
+		if len(got) == 0 || got[len(got)-1] != v {
+			got = append(got, v)
+		}
+	}
+	i := 0
+	for _, g := range got {
+		for i < len(want) && want[i] != g {
+			i++
+		}
+		if i == len(want) {
+			return fmt.Sprintf("results-labelled-%q-but-the-inputs-are-%q", got, want)
+		}
+		i++
 	}
 	return "ok"
 }
